@@ -1,7 +1,10 @@
 //go:build verif
 
-// Contracts for the generated bindings of this package (property C05), derived mechanically by
-// /verif/tools/gencontracts.py from the generated source; checked by /verif/govc. Comments only.
+// Contracts for the generated bindings of this package, derived mechanically by /verif/tools/gencontracts.py;
+// checked by /verif/govc. Comments only. C05 (decoder totality): from the shape of the generated readers.
+// C03 (schema encoding): from the IDL file of the package - for a struct whose members are all scalars or
+// strings, WriteTo appends exactly the members in ascending tag order, each under its declared tag and wire
+// type, required ones always, optional ones unless equal to their declared default.
 
 package propertyf
 
@@ -30,6 +33,24 @@ package propertyf
 //@   ensures [C05] validR(readBuf)
 //@   safety [C05]
 //
+//@ func (*StatPropMsgHead).WriteTo
+//@   requires st != nil && validB(buf) && len(st.ModuleName) < 4294967296 && len(st.Ip) < 4294967296 && len(st.PropertyName) < 4294967296 && len(st.SetName) < 4294967296 && len(st.SetArea) < 4294967296 && len(st.SetID) < 4294967296 && len(st.SContainer) < 4294967296
+//@   let e0 = buf.buf.bytes
+//@   let e1 = e0 ++ encString(0, st.ModuleName)
+//@   let e2 = e1 ++ encString(1, st.Ip)
+//@   let e3 = e2 ++ encString(2, st.PropertyName)
+//@   let e4 = (st.SetName != "" ? e3 ++ encString(3, st.SetName) : e3)
+//@   let e5 = (st.SetArea != "" ? e4 ++ encString(4, st.SetArea) : e4)
+//@   let e6 = (st.SetID != "" ? e5 ++ encString(5, st.SetID) : e5)
+//@   let e7 = (st.SContainer != "" ? e6 ++ encString(6, st.SContainer) : e6)
+//@   let e8 = (st.IPropertyVer != 1 ? e7 ++ encInt32(7, st.IPropertyVer) : e7)
+//@   let pre = e8
+//@   opaque head encInt8 encInt16 encInt32 encInt64 encString encBool
+//@   perreturn
+//@   modifies buf.buf.bytes
+//@   ensures [C03] err == nil && buf.buf.bytes == pre
+//@   safety [C03]
+//
 //@ func (*StatPropInfo).ResetDefault
 //@   requires st != nil
 //@   modifies *st
@@ -54,6 +75,18 @@ package propertyf
 //@   ensures [C05] readBuf.buf.i >= p0
 //@   ensures [C05] validR(readBuf)
 //@   safety [C05]
+//
+//@ func (*StatPropInfo).WriteTo
+//@   requires st != nil && validB(buf) && len(st.Policy) < 4294967296 && len(st.Value) < 4294967296
+//@   let e0 = buf.buf.bytes
+//@   let e1 = e0 ++ encString(0, st.Policy)
+//@   let e2 = e1 ++ encString(1, st.Value)
+//@   let pre = e2
+//@   opaque head encInt8 encInt16 encInt32 encInt64 encString encBool
+//@   perreturn
+//@   modifies buf.buf.bytes
+//@   ensures [C03] err == nil && buf.buf.bytes == pre
+//@   safety [C03]
 //
 //@ func (*StatPropMsgBody).ResetDefault
 //@   requires st != nil
